@@ -1,5 +1,16 @@
 (* Model of internal/parser/rust_generator.go at the level of the codec IR.
-   Faithful to the code, defects included.  Model only: no proofs here. *)
+   Faithful to the code, defects included.  Model only: no proofs here.
+
+   Conventions specific to Rust (see harness/extract_rust.py, which is the inverse):
+   - a step is tagged with the index of the first member that carries the snake_case name the
+     emitted text uses ([sn_index]); this is the field's own index whenever the converted names
+     of a packet are pairwise different;
+   - type names are resolved through the emitted declarations: structs are declared under
+     ToCamel(name) but referred to by their raw names (member types, enum payloads,
+     "<T>::decode"), enums are declared under <raw packet name><field>Enum, only for the
+     top-level packet of a file, but referred to as <ToCamel(packet name)><field>Enum;
+     a name that resolves to nothing gives EObj/DObj "?<name>";
+   - the marker comments ("// unknown type for ...") name no member: tagged 999.           *)
 From FP Require Export Common.
 Open Scope string_scope.
 Open Scope list_scope.
@@ -7,5 +18,218 @@ Open Scope list_scope.
 Section Rust.
   Variable M : bmodel.
 
-  Definition gen_rust : prog := [].
+  (* GetPadding + "!padding.IsDefault()" *)
+  Definition rs_pad := padarg_of norm_rust M.
+
+  (* width denoted by a type name appearing in a method name or a turbofish *)
+  Definition rs_w (t : string) : nat := opt_w (ty_width t).
+
+  (* ---- the types the crate declares ---- *)
+
+  (* generateStructCode: the inline packets of a packet are emitted (recursively) before it *)
+  Fixpoint rs_tree (path : string) (p : packet) {struct p} : list (string * packet) :=
+    match p with
+    | mkPacket _ _ _ fs _ =>
+        (fix inl (fs : list field) : list (string * packet) :=
+           match fs with
+           | [] => []
+           | mkField fname (AObj true _ _ (Some q)) _ _ :: r => rs_tree (path_join path fname) q ++ inl r
+           | _ :: r => inl r
+           end) fs ++ [(path, p)]
+    end.
+
+  (* "pub struct ToCamel(name)" of every file: declared name |-> packet path *)
+  Definition rs_structs : list (string * string) :=
+    flat_map (fun p => map (fun '(path, q) => (camel M (p_name q), path)) (rs_tree (p_name p) p)) (m_packets M).
+
+  Definition rs_resolve (t : string) : string :=
+    match filter (fun d => String.eqb (fst d) t) rs_structs with
+    | [(_, path)] => path
+    | _ => ("?" ++ t)%string
+    end.
+
+  (* generateMatchFieldEnumCode, called for the top-level packet of the file only:
+     "pub enum <packet.Name><f.Name>Enum" *)
+  Definition rs_enums (top : packet) : list string :=
+    flat_map (fun f => match f_attr f with
+                       | AMatch _ _ _ => [(p_name top ++ f_name f ++ "Enum")%string]
+                       | _ => []
+                       end) (p_fields top).
+
+  Definition rs_enum_declared (top : packet) (n : string) : bool :=
+    Nat.eqb (length (filter (String.eqb n) (rs_enums top))) 1.
+
+  (* parentName + f.Name + "Enum" with parentName = ToCamel(p.Name) (GetFieldType, EncoderMatchField,
+     DecodeMatchField) *)
+  Definition rs_enum_name (p : packet) (f : field) : string := (camel M (p_name p) ++ f_name f ++ "Enum")%string.
+
+  (* ---- members ---- *)
+
+  (* the member a snake_case name denotes: the first one declared under it *)
+  Definition sn_index (p : packet) (n : string) : nat :=
+    match index_where (fun n' => String.eqb (snake M n') (snake M n)) (p_fields p) 0 with
+    | Some i => i
+    | None => undefined_mark
+    end.
+
+  (* the switch on f.GetType() that ends EncodeField *)
+  Definition rs_enc_scalar (t : string) : option estep :=
+    let le := le_of M in
+    if String.eqb t "char" then Some (EInt 1 false)                                  (* put_char(buf, self.x) *)
+    else if orb (String.eqb t "u8") (String.eqb t "i8") then Some (EInt 1 false)     (* buf.put_u8(self.x): never _le *)
+    else if str_in t ["u16"; "u32"; "u64"; "i16"; "i32"; "i64"; "f32"; "f64"] then Some (EInt (rs_w t) le)
+    else None.                                                                       (* "// unknown type for encode: " *)
+
+  (* the switch on f.GetType() that ends DecodeField *)
+  Definition rs_dec_scalar (t : string) : option dstep :=
+    let le := le_of M in
+    if String.eqb t "char" then Some (DInt 1 false)
+    else if orb (String.eqb t "u8") (String.eqb t "i8") then Some (DInt 1 false)
+    else if str_in t ["u16"; "u32"; "u64"; "i16"; "i32"; "i64"; "f32"; "f64"] then Some (DInt (rs_w t) le)
+    else None.
+
+  (* EncodeField, "if f.IsRepeat" *)
+  Definition rs_enc_list (f : field) : estep :=
+    let lw := cfg_list_w M in let le := le_of M in
+    match field_get_type f with
+    | None => ENone "panic"
+    | Some t =>
+      match f_attr f with
+      | AFixed n _ => EList lw le le (EFixed n (rs_pad (f_attr f)))
+      | ADyn => EList lw le le (EStr (cfg_str_w M) le le)
+      | AObj _ _ _ _ => EList lw le le (EObj (rs_resolve t))           (* put_object_list::<RefPacket.Name, L> *)
+      | _ => if String.eqb t "char"
+             then EList lw false false (EInt 1 false)                  (* put_char_list::<L>: no _le variant is emitted *)
+             else EList lw le le (EInt (rs_w t) le)                    (* put_list::<T, L> *)
+      end
+    end.
+
+  (* is "<x>_pos" with x = snake(n) defined by the placeholder of an earlier field ? *)
+  Fixpoint pos_defined (n : string) (fs : list field) (k : nat) : bool :=
+    match k, fs with
+    | S k', f :: r =>
+        orb (match f_attr f with
+             | ALen _ _ => String.eqb (snake M (f_name f)) (snake M n)
+             | _ => false
+             end) (pos_defined n r k')
+    | _, _ => false
+    end.
+
+  (* EncodeField *)
+  Definition rs_enc_step (top : packet) (p : packet) (i : nat) (f : field) : list (nat * estep) :=
+    let le := le_of M in
+    let mi := sn_index p (f_name f) in
+    match f_attr f, field_get_type f with
+    | ANil, _ => [(mi, ENone "panic")]
+    | _, None => [(mi, ENone "panic")]
+    (* "let <snake(f.Name)>_pos = buf.len(); buf.put_<ty>[_le](0);" - before the IsRepeat test *)
+    | ALen _ _, Some t => [(mi, EMarkZero mi (rs_w t) le)]
+    (* "buf.put_<ty>(val)": big-endian whatever the configuration - before the IsRepeat test *)
+    | ACheck alg _, Some t => [(mi, ECheck alg (rs_w t) false)]
+    | a, Some t =>
+      if f_rep f then [(mi, rs_enc_list f)] else
+      match a with
+      | AFixed n _ => [(mi, EFixed n (rs_pad a))]
+      | ADyn => [(mi, EStr (cfg_str_w M) le le)]
+      | AMatch _ _ _ =>
+          let en := rs_enum_name p f in
+          let inner := if rs_enum_declared top en then EDyn else EObj ("?" ++ en)%string in
+          match f_len f with
+          | LTarget =>
+              (* the patch goes through "<snake(p.LengthField.Name)>_pos" *)
+              match p_lenf p with
+              | None => [(mi, ENone "panic")]
+              | Some ln =>
+                  match len_field_index p with
+                  | None => [(mi, ENone "panic")]
+                  | Some li =>
+                      match nth_error (p_fields p) li with
+                      | None => [(mi, ENone "panic")]
+                      | Some lf =>
+                          match field_get_type lf with
+                          | None => [(mi, ENone "panic")]
+                          | Some lt =>
+                              let mark := if pos_defined ln (p_fields p) i then sn_index p ln else undefined_mark in
+                              (* cppBasicTypeMap[lt].Size: the ten numeric types, 0 otherwise *)
+                              [(mi, ESpan inner mi); (mi, EPatch mark mi (rs_w lt) le (rs_w lt) (Some (rs_w lt)))]
+                          end
+                      end
+                  end
+              end
+          | _ => [(mi, inner)]
+          end
+      | AObj _ _ _ _ => [(mi, EObj (rs_resolve t))]          (* no back-patch for an object target *)
+      | _ => match rs_enc_scalar t with
+             | Some s => [(mi, s)]
+             | None => [(undefined_mark, ENone "marker")]
+             end
+      end
+    end.
+
+  (* DecodeField, "if f.IsRepeat" *)
+  Definition rs_dec_list (f : field) : dstep :=
+    let lw := cfg_list_w M in let le := le_of M in
+    match field_get_type f with
+    | None => DNone "panic"
+    | Some t =>
+      match f_attr f with
+      | AFixed n _ => DList lw le false (DFixed n (rs_pad (f_attr f)))
+      | ADyn => DList lw le false (DStr (cfg_str_w M) le false)
+      | AObj _ _ _ _ => DList lw le false (DObj (rs_resolve t))
+      | _ => if String.eqb t "char"
+             then DList lw false false (DInt 1 false)                  (* get_char_list::<L> *)
+             else DList lw le false (DInt (rs_w t) le)
+      end
+    end.
+
+  (* DecodeMatchField: one arm per distinct key text, in order *)
+  Fixpoint rs_arms (seen : list string) (pairs : list mpair) : list (string * string) :=
+    match pairs with
+    | [] => []
+    | mp :: r => if str_in (mp_key mp) seen then rs_arms seen r
+                 else (mp_key mp, rs_resolve (mp_value mp)) :: rs_arms (mp_key mp :: seen) r
+    end.
+
+  (* DecodeField *)
+  Definition rs_dec_step (top : packet) (p : packet) (f : field) : list (nat * dstep) :=
+    let le := le_of M in
+    let mi := sn_index p (f_name f) in
+    match f_attr f, field_get_type f with
+    | ANil, _ => [(mi, DNone "panic")]
+    | _, None => [(mi, DNone "panic")]
+    | a, Some t =>
+      if f_rep f then [(mi, rs_dec_list f)] else
+      match a with
+      | AFixed n _ => [(mi, DFixed n (rs_pad a))]
+      | ADyn => [(mi, DStr (cfg_str_w M) le false)]
+      | AMatch (Some k) _ pairs =>
+          match pairs with
+          | [] => [(mi, DNone "panic")]                       (* mfa.MatchPairs[0] *)
+          | _ =>
+            let en := rs_enum_name p f in
+            if rs_enum_declared top en
+            then [(mi, DDispatch (rs_arms [] pairs) true (sn_index p k) true)]
+            else [(mi, DObj ("?" ++ en)%string)]
+          end
+      | AMatch None _ _ => [(mi, DNone "panic")]
+      | AObj _ _ _ _ => [(mi, DObj (rs_resolve t))]           (* "<RefPacket.Name>::decode(buf)?" *)
+      | _ => match rs_dec_scalar t with
+             | Some s => [(mi, s)]
+             | None => [(undefined_mark, DNone "marker")]
+             end
+      end
+    end.
+
+  Fixpoint number {A} (i : nat) (l : list A) : list (nat * A) :=
+    match l with [] => [] | x :: r => (i, x) :: number (S i) r end.
+
+  Definition rs_ir (top : packet) (p : packet) : pkt_ir :=
+    let fs := number 0 (p_fields p) in
+    mkPkt (length (p_fields p))
+          (flat_map (fun '(i, f) => rs_enc_step top p i f) fs)
+          (flat_map (fun '(_, f) => rs_dec_step top p f) fs).
+
+  (* Generate: one file per packet of PacketsMap *)
+  Definition gen_rust : prog :=
+    flat_map (fun top => map (fun '(path, q) => (path, rs_ir top q)) (rs_tree (p_name top) top)) (m_packets M).
 End Rust.
